@@ -192,6 +192,25 @@ def gen_decl(rng, typ, dims, attr, pars, style):
     n = numel(dims)
     r = rng.random()
     exprs_ok = typ == "Real" and attr != "fixed" and pars
+    if exprs_ok and style == "cubic" and r < 0.3:
+        # a monomial of degree >= 3 in the parameters, written with * only and a leading constant (no x*x node -> no
+        # OP_SQ, no factor 2 -> no OP_TWICE): every operation is "allowed" and the Hessian vanishes AT p = 0 only
+        sc = [i for i, p in enumerate(pars) if p["type"] == "Real" and not p["dims"]]
+        if sc:
+            c = rng.choice([3, Fraction(1, 2), Fraction(3, 2), -3, 4, Fraction(1, 4), 5])
+            fs = [{"op": "par", "i": rng.choice(sc), "el": None} for _ in range(rng.choice([3, 3, 4]))]
+            e = {"op": "mul", "a": {"op": "num", "v": xj(c), "int": False}, "b": fs[0]}
+            if rng.random() < 0.5:
+                for f in fs[1:]:
+                    e = {"op": "mul", "a": e, "b": f}                       # ((c*a)*b)*d
+            else:
+                t = fs[-1]
+                for f in reversed(fs[1:-1]):
+                    t = {"op": "mul", "a": f, "b": t}                       # (c*a)*(b*d)
+                e = {"op": "mul", "a": e, "b": t}
+            if rng.random() < 0.3:
+                e = {"op": "add", "a": e, "b": gen_affine(rng, pars, 0, 1)}
+            return {"k": "expr", "e": e}
     if exprs_ok and style == "bilinear" and r < 0.2:
         # only operations the affinity test allows (+ - * /), but a non-zero Hessian: p*(q+c), c/p
         sc = [i for i, p in enumerate(pars) if p["type"] == "Real" and not p["dims"]]
@@ -211,6 +230,15 @@ def gen_decl(rng, typ, dims, attr, pars, style):
         if len(dims) == 2 and vec_len(e, pars) > 1:
             e = gen_affine(rng, [p for p in pars], 0, 2)
         return {"k": "expr", "e": e}
+    if typ == "Integer" and attr != "fixed" and 0.15 <= r < 0.3:
+        # a constant expression: `*` of two integer literals is folded by the walk (ca.mtimes -> 1x1 DM)
+        e = {"op": "mul", "a": {"op": "num", "v": xj(rng.randint(-4, 4)), "int": True},
+             "b": {"op": "num", "v": xj(rng.randint(1, 4)), "int": True}}
+        if rng.random() < 0.3:
+            e = {"op": "neg", "a": e}
+        return {"k": "expr", "e": e}
+    if (typ == "Boolean" or (attr == "fixed" and typ != "Real")) and r < 0.3:
+        return {"k": "notlit", "v": rng.random() < 0.5}                     # `not true` / `not false`
     if typ == "Integer" and attr != "fixed" and pars and r < 0.15:
         ints = [i for i, p in enumerate(pars) if p["type"] == "Integer" and not p["dims"]]
         if ints:
@@ -238,8 +266,8 @@ def gen_decl(rng, typ, dims, attr, pars, style):
 
 
 def gen_case(rng, stream="main"):
-    style = rng.choice(["affine", "rebuild", "rebuild", "bilinear", "mixed", "nonaffine", "plain"]) if stream == "main" else "affine"
-    STRICT[0] = style in ("rebuild", "bilinear")
+    style = rng.choice(["affine", "rebuild", "rebuild", "bilinear", "cubic", "mixed", "nonaffine", "plain"]) if stream == "main" else "affine"
+    STRICT[0] = style in ("rebuild", "bilinear", "cubic")
     try:
         return _gen_case(rng, stream, "affine" if style == "rebuild" else style)
     finally:
@@ -344,6 +372,8 @@ def _gen_case(rng, stream, style):
         pvecs.append(pv)
     if pars and rng.random() < 0.3 and not any(p.get("divisor") for p in pars):
         pvecs[0] = [xj(0)] * len(pvecs[0])
+    if pars and style in ("cubic", "bilinear"):
+        pvecs[-1] = [x if jx(x) != 0 else xj(rng.choice([1, -1, 2, 3, Fraction(1, 2)])) for x in pvecs[-1]]
     return {"stream": stream, "vars": allv, "npar": len(pars), "pvecs": pvecs}
 
 
@@ -393,6 +423,8 @@ def decl_text(d, dims, pars):
         return "{" + ", ".join("{" + ", ".join(lit_text(x) for x in r) + "}" for r in d["rows"]) + "}"
     if k == "arrexpr":
         return "{" + ", ".join(expr_text(e, pars) for e in d["elems"]) + "}"
+    if k == "notlit":
+        return "not true" if d["v"] else "not false"
     if k == "dm":
         dd = dims or [1]
         args = ", ".join(str(x) for x in dd)
@@ -415,7 +447,7 @@ def _balanced(t):
 
 
 def is_scalar_decl(d, pars):
-    if d["k"] == "lit":
+    if d["k"] in ("lit", "notlit"):
         return True
     if d["k"] == "expr":
         return vec_len(d["e"], pars) == 1
@@ -520,6 +552,8 @@ def declared(v, a, pars, off, pv):
         return [DEFAULT[a]] * n
     if d["k"] == "lit":
         xs = [lit_val(d["v"])]
+    elif d["k"] == "notlit":
+        xs = [Fraction(0 if d["v"] else 1)]
     elif d["k"] == "expr":
         xs = ev(d["e"], pars, off, pv)
     elif d["k"] == "arrexpr":
@@ -630,8 +664,16 @@ def oracle(case, obs):
             if d is not None and d["k"] == "lit" and d["v"]["t"] != "inf" and a != "fixed":
                 if got["t"] != PT[v["type"]]:
                     return ("literal %s of %s %s has Python type" % (a, v["type"], v["name"]), PT[v["type"]], got["t"])
-            if a == "fixed" and v["type"] != "Real" and got["t"] != "bool":
+            if a == "fixed" and v["type"] != "Real" and got["t"] != "bool" and (d is None or d["k"] == "lit"):
                 return ("fixed of %s %s has Python type" % (v["type"], v["name"]), "bool", got["t"])
+            # ... and so do constant expressions the translation folds to a number (`max = 2*3`, `start = not false`):
+            # whatever is stored as a Python number on an Integer / Boolean variable has that variable's type
+            if got["t"] in ("int", "float", "bool") and a != "fixed" and d is not None and got["v"]:
+                finite = all(not isinstance(x, str) for vals in got["v"] for x in vals)
+                if v["type"] == "Integer" and finite and got["t"] == "float":
+                    return ("%s of Integer %s is stored as a Python float" % (a, v["name"]), "int", got["t"])
+                if v["type"] == "Boolean" and got["t"] != "bool":
+                    return ("%s of Boolean %s is stored as a Python %s" % (a, v["name"], got["t"]), "bool", got["t"])
             if got["v"] is None:
                 return ("%s of %s cannot be evaluated (%s)" % (a, v["name"], got["t"]), "numbers", got["t"])
             for k, pv in enumerate(pvecs):
@@ -674,7 +716,7 @@ def oracle(case, obs):
 def nontrivial(case):
     for v in case["vars"]:
         for a, d in v["attrs"].items():
-            if d["k"] in ("expr", "arr", "dm", "arrexpr"):
+            if d["k"] in ("expr", "arr", "dm", "arrexpr", "notlit"):
                 return True
             if d["k"] == "lit" and d["v"]["t"] != {"Real": "real", "Integer": "int", "Boolean": "bool"}[v["type"]]:
                 return True
